@@ -25,10 +25,24 @@ type StrVal struct {
 type AbsStr struct {
 	Ctor string
 	Args []*smt.Term
+	// bech32 only: the text is Hrp + "1" + one character per 5-bit group + 6 checksum characters, and the
+	// data characters never contain '1'
+	Hrp string
+}
+
+// AbsLen: length of an abstract string when its encoder fixes it (-1 otherwise).
+func (a *AbsStr) AbsLen() int {
+	if strings.HasPrefix(a.Ctor, "bech32:") {
+		return len(a.Hrp) + 1 + len(a.Args) + 6
+	}
+	return -1
 }
 
 func (s StrVal) Len() int {
 	if s.Abs != nil {
+		if n := s.Abs.AbsLen(); n >= 0 {
+			return n
+		}
 		panic(pathEnd{"unsupported", "length/content of an abstract " + s.Abs.Ctor + " string is not modelled"})
 	}
 	if s.B != nil {
